@@ -664,6 +664,15 @@ func (m *metaRun) download(stores context2.Stores, id int, sel []string, files [
 				m.bad("downloadfile/error", "ok", err.Error(), fmt.Sprintf("bundle %d file %s", id, name))
 			} else if gb, rerr := ioutil.ReadFile(filepath.Join(one, filepath.FromSlash(name))); rerr != nil || !bytes.Equal(gb, exp[name]) {
 				m.bad("downloadfile/wrong-bytes", len(exp[name]), len(gb), fmt.Sprintf("bundle %d file %s", id, name))
+			} else {
+				// exactly the selected file: nothing else of the bundle
+				of, _ := readDir(one)
+				for p := range of {
+					if p != name {
+						m.bad("downloadfile/extra-file", name, p, fmt.Sprintf("bundle %d: single-file download of %s also wrote %s", id, name, p))
+						break
+					}
+				}
 			}
 			_ = os.RemoveAll(one)
 		}
